@@ -75,8 +75,11 @@ func (ss *session) kill(err error) {
 	if ss.tx != nil {
 		ss.endTx(false)
 	}
-	delete(ss.srv.sessions, ss.id)
-	delete(ss.srv.waits, ss.id)
+	delete(ss.srv.embryos, ss)
+	if ss.id != 0 {
+		delete(ss.srv.sessions, ss.id)
+		delete(ss.srv.waits, ss.id)
+	}
 	close(ss.abort)
 	if ss.onKill != nil {
 		ss.onKill(err)
@@ -484,6 +487,9 @@ func (ss *session) startup(body []byte) error {
 		return io.EOF
 	}
 	ss.started = true
+	ss.srv.mu.Lock()
+	ss.srv.register(ss)
+	ss.srv.mu.Unlock()
 	ss.send(&pgproto3.AuthenticationOk{})
 	for _, kv := range [][2]string{
 		{"application_name", ""}, {"client_encoding", "UTF8"}, {"DateStyle", "ISO, MDY"}, {"integer_datetimes", "on"},
